@@ -3,8 +3,8 @@ Model of `asynkit.experimental.priority.PriorityValue` and `PosPriorityQueue`
 (src/asynkit/experimental/priority.py), operation for operation, over `Model/PQ`.
 
 Priorities are exact rationals (`Rat`).  `gp` is the queue's `get_priority` callback and
-`draw i` is the value returned by the i-th call of `random.random()` inside one maintenance
-round; both are parameters, so theorems quantify over them.
+`draw n` is the value `random.random()` returns when the entry with sequence number `n` is
+considered for a boost; both are parameters, so theorems quantify over them.
 -/
 import Asynkit.Model.PQ
 
@@ -55,30 +55,34 @@ def regularMinMax : List (Entry PV) → Option (Rat × Rat)
 def computeBoost (factor priority minPri : Rat) (r : Rat) : Rat :=
   r * ((minPri - priority) * factor)
 
-/-- `do_maintenance` + `boost_stragglers`, walking the array once.
-    `k` counts calls of `compute_priority_boost` so far (index into `draw`);
-    returns the new array and whether anything was boosted. -/
-def boostWalk (factor minPri : Rat) (limit : Nat) (draw : Nat → Rat) :
-    Nat → List (Entry PV) → List (Entry PV) × Bool
-  | _, [] => ([], false)
-  | k, e :: es =>
-    if e.pri.cls != 0 && decide (e.pri.insertedAt < limit) && decide (e.pri.base > minPri) then
-      let pb := computeBoost factor e.pri.base minPri (draw k)
-      let r := boostWalk factor minPri limit draw (k + 1) es
-      if pb != 0 then ({ e with pri := { e.pri with boost := pb } } :: r.1, true)
-      else (e :: r.1, r.2)
-    else
-      let r := boostWalk factor minPri limit draw k es
-      (e :: r.1, r.2)
+/-- who is a candidate for a boost in a maintenance round: a regular entry (`priority_class != 0`)
+    inserted more than a queue length ago (`inserted_at < limit`, the `stragglers` list) whose base
+    priority is above `min_pri` (the test in `boost_stragglers`) -/
+def candidate (minPri : Rat) (limit : Nat) (e : Entry PV) : Bool :=
+  e.pri.cls != 0 && decide (e.pri.insertedAt < limit) && decide (e.pri.base > minPri)
 
+/-- what `boost_stragglers` does to one entry.  `draw n` is the value `random.random()` returned
+    when the entry with sequence number `n` was considered (sequence numbers are distinct, so any
+    sequence of random outcomes is such a function and vice versa). -/
+def boostOne (factor minPri : Rat) (limit : Nat) (draw : Nat → Rat) (e : Entry PV) : Entry PV :=
+  if candidate minPri limit e then
+    let pb := computeBoost factor e.pri.base minPri (draw e.seq)
+    if pb != 0 then { e with pri := { e.pri with boost := pb } } else e
+  else e
+
+/-- `do_maintenance` + `boost_stragglers`: one pass over the array; `refresh()` (heapify) only when
+    some boost was applied (`n_boosted > 0`). -/
 def doMaintenance (s : PosPQ) (draw : Nat → Rat) : PosPQ :=
   if s.factor == 0 then s else
   match regularMinMax s.q.pq with
   | none => s
   | some (minPri, _) =>
     let limit := s.nIns - s.len
-    let r := boostWalk s.factor minPri limit draw 0 s.q.pq
-    if r.2 then { s with q := ⟨s.q.seq, H.heapify (Entry.lt PV.lt) r.1⟩ } else s
+    let boosted := s.q.pq.any (fun e =>
+      candidate minPri limit e && computeBoost s.factor e.pri.base minPri (draw e.seq) != 0)
+    if boosted then
+      { s with q := ⟨s.q.seq, H.heapify (Entry.lt PV.lt) (s.q.pq.map (boostOne s.factor minPri limit draw))⟩ }
+    else s
 
 /-- `update_counters(inserted)` -/
 def updateCounters (s : PosPQ) (inserted : Bool) (draw : Nat → Rat) : PosPQ :=
@@ -116,20 +120,24 @@ def addAll (pv : PV) : PQ PV → List Nat → PQ PV
   | q, [] => q
   | q, x :: xs => addAll pv (q.add H PV.lt pv x) xs
 
+/-- the priority value `insert` gives to the promoted entries and the new one: class 0, one step
+    ahead of a positional head (the peek only happens when the promotion loop finished without
+    IndexError, `done`). -/
+def insertPV (s1 : PosPQ) (done : Bool) : PV :=
+  { base :=
+      if done then
+        match s1.q.peek with
+        | some e => if e.pri.cls == 0 then e.pri.base - 1 else 0
+        | none => 0
+      else 0
+    insertedAt := s1.nIns
+    cls := 0 }
+
 /-- `insert(position, obj)` -/
 def insert (s : PosPQ) (position : Nat) (x : Nat) (draw : Nat → Rat) : PosPQ :=
   let r := promote H draw position s []
-  let s1 := r.1
-  let promoted := r.2
-  -- the peek only happens when the loop finished without IndexError
-  let priorityVal : Rat :=
-    if promoted.length == position then
-      match s1.q.peek with
-      | some e => if e.pri.cls == 0 then e.pri.base - 1 else 0
-      | none => 0
-    else 0
-  let pv : PV := { base := priorityVal, insertedAt := s1.nIns, cls := 0 }
-  updateCounters H { s1 with q := addAll H pv s1.q (promoted ++ [x]) } true draw
+  let pv := insertPV r.1 (r.2.length == position)
+  updateCounters H { r.1 with q := addAll H pv r.1.q (r.2 ++ [x]) } true draw
 
 /-- `remove(obj)`; `none` = ValueError -/
 def remove (s : PosPQ) (x : Nat) (draw : Nat → Rat) : Option PosPQ :=
